@@ -1,7 +1,9 @@
-"""Unit RDFSTORE (C13): RdfStore::remove - index maintenance on removal (the three index buckets lose exactly the removed triple).
+"""Unit RDFSTORE (C13): RdfStore::{insert, remove, contains, find} - the store is a SET of triples and every lookup path returns exactly
+the matching triples of that set, once each.
 
-Only `remove` is within reach: `insert` uses the hashbrown entry API, `find` iterator adapter chains.  The primary set
-(`FxHashSet<Arc<Triple>>`, looked up through Borrow<Triple>) is opaque: vstd has no key model for Arc<T>: Borrow<T>."""
+The primary set (`FxHashSet<Arc<Triple>>`, looked up through Borrow<Triple>) is opaque (vstd has no key model for Arc<T>: Borrow<T>):
+it carries an abstract view `Set<Triple>` and its five operations have ASSUMED std contracts.  Everything else - the three term -> bucket
+indexes, their agreement with the primary view, no-duplicates, the choice of access path in `find` and its re-filter - is proved."""
 import re
 
 from vlib import Unit
@@ -28,10 +30,25 @@ impl vstd::std_specs::cmp::PartialEqSpecImpl for Term {
     open spec fn eq_spec(&self, other: &Term) -> bool { *self == *other }
 }
 pub assume_specification[ <Term as PartialEq>::eq ](a: &Term, b: &Term) -> (r: bool) ensures r == (*a == *b);
+impl Clone for Term { #[verifier::external_body] fn clone(&self) -> (r: Self) ensures r == *self { unimplemented!() } }
 #[verifier::external_body] pub struct OpaqueTripleSet { _p: () }      // FxHashSet<Arc<Triple>> (primary storage)
+impl OpaqueTripleSet { pub uninterp spec fn view(&self) -> Set<Triple>; }
 #[verifier::external_body] pub struct OpaqueTxBuffer { _p: () }
-// the primary-set removal: no contract needed, only its boolean result steers the index maintenance
-#[verifier::external_body] fn primary_remove(set: &mut OpaqueTripleSet, t: &Triple) -> (r: bool) { false }
+// the primary set's operations: ASSUMED std HashSet contracts over the abstract view
+#[verifier::external_body] fn primary_contains(set: &OpaqueTripleSet, t: &Triple) -> (r: bool)
+    ensures r == set.view().contains(*t) { unimplemented!() }
+#[verifier::external_body] fn primary_insert(set: &mut OpaqueTripleSet, t: Arc<Triple>) -> (r: bool)
+    ensures r == !old(set).view().contains(*t), final(set).view() == old(set).view().insert(*t) { unimplemented!() }
+#[verifier::external_body] fn primary_remove(set: &mut OpaqueTripleSet, t: &Triple) -> (r: bool)
+    ensures r == old(set).view().contains(*t), final(set).view() == old(set).view().remove(*t) { unimplemented!() }
+#[verifier::external_body] fn primary_elems(set: &OpaqueTripleSet) -> (r: Vec<Arc<Triple>>)
+    ensures r@.no_duplicates(), forall|x: Arc<Triple>| #[trigger] r@.contains(x) <==> set.view().contains(*x) { unimplemented!() }
+// R20: `m.entry(k).or_default().push(v)` outlined; contract ASSUMED (std HashMap entry API)
+#[verifier::external_body] fn entry_or_default_push(m: &mut HashMap<Term, Vec<Arc<Triple>>>, k: Term, v: Arc<Triple>)
+    ensures final(m)@.contains_key(k), final(m)@[k]@ == bucket(old(m)@, k).push(v),
+            forall|o: Term| #![trigger final(m)@.contains_key(o)] #![trigger old(m)@.contains_key(o)] #![trigger final(m)@[o]] #![trigger old(m)@[o]]
+                o != k ==> (final(m)@.contains_key(o) == old(m)@.contains_key(o)) && (old(m)@.contains_key(o) ==> final(m)@[o] == old(m)@[o]),
+{ m.entry(k).or_default().push(v); }
 
 @@Triple@@
 impl vstd::std_specs::cmp::PartialEqSpecImpl for Triple {
@@ -43,6 +60,17 @@ impl Triple {
     @@Triple::subject@@
     @@Triple::predicate@@
     @@Triple::object@@
+}
+@@TriplePattern@@
+/// "every lookup by subject, predicate, object or any combination returns exactly the matching triples"
+pub open spec fn pattern_matches(p: TriplePattern, t: Triple) -> bool {
+    (p.subject is None || p.subject->0 == t.subject)
+    && (p.predicate is None || p.predicate->0 == t.predicate)
+    && (p.object is None || p.object->0 == t.object)
+}
+pub open spec fn pm(p: TriplePattern) -> spec_fn(Arc<Triple>) -> bool { |x: Arc<Triple>| pattern_matches(p, *x) }
+impl TriplePattern {
+    @@TriplePattern::matches@@
 }
 @@RdfStoreConfig@@
 @@RdfStore@@
@@ -183,8 +211,144 @@ proof fn lemma_bucket_update(old_idx: Map<Term, Vec<Arc<Triple>>>, new_idx: Map<
     }
 }
 
+/// the index agrees with the set V: a triple sits in the bucket of its own component iff it is in V
+pub open spec fn agree(idx: Map<Term, Vec<Arc<Triple>>>, c: Comp, v: Set<Triple>) -> bool {
+    forall|x: Arc<Triple>| #![trigger bucket(idx, comp(*x, c)).contains(x)] #![trigger v.contains(*x)] bucket(idx, comp(*x, c)).contains(x) <==> v.contains(*x)
+}
+pub open spec fn tri(a: Arc<Triple>) -> Triple { *a }
+pub open spec fn index_nodup(idx: Map<Term, Vec<Arc<Triple>>>) -> bool {
+    forall|k: Term| #[trigger] idx.contains_key(k) ==> idx[k]@.no_duplicates()
+}
+pub open spec fn index_ok(idx: Map<Term, Vec<Arc<Triple>>>, c: Comp, v: Set<Triple>) -> bool { index_wf(idx, c) && agree(idx, c, v) && index_nodup(idx) }
+
+pub proof fn lemma_filter_mem<T>(s: Seq<T>, p: spec_fn(T) -> bool)
+    ensures forall|x: T| #[trigger] s.filter(p).contains(x) <==> s.contains(x) && p(x),
+    decreases s.len()
+{
+    reveal_with_fuel(Seq::filter, 2);
+    if s.len() == 0 {
+        assert(s.filter(p) =~= Seq::<T>::empty());
+    } else {
+        let d = s.drop_last();
+        lemma_filter_mem(d, p);
+        assert forall|x: T| #[trigger] s.filter(p).contains(x) <==> s.contains(x) && p(x) by {
+            let f = s.filter(p);
+            let df = d.filter(p);
+            if f.contains(x) {
+                let i = choose|i: int| 0 <= i < f.len() && f[i] == x;
+                if i < df.len() { assert(df[i] == x); assert(df.contains(x)); assert(d.contains(x)); let j = choose|j: int| 0 <= j < d.len() && d[j] == x; assert(s[j] == x); }
+                else { assert(p(s.last()) && x == s.last()); assert(s[s.len() - 1] == x); }
+            }
+            if s.contains(x) && p(x) {
+                let j = choose|j: int| 0 <= j < s.len() && s[j] == x;
+                if j < d.len() { assert(d[j] == x); assert(d.contains(x)); assert(df.contains(x)); let i = choose|i: int| 0 <= i < df.len() && df[i] == x; assert(f[i] == x); }
+                else { assert(x == s.last()); assert(f == df.push(s.last())); assert(f[f.len() - 1] == x); }
+            }
+        }
+    }
+}
+pub proof fn lemma_filter_nodup<T>(s: Seq<T>, p: spec_fn(T) -> bool)
+    requires s.no_duplicates(),
+    ensures s.filter(p).no_duplicates(),
+    decreases s.len()
+{
+    reveal_with_fuel(Seq::filter, 2);
+    if s.len() > 0 {
+        let d = s.drop_last();
+        assert(d.no_duplicates());
+        lemma_filter_nodup(d, p);
+        lemma_filter_mem(d, p);
+        let f = s.filter(p);
+        let df = d.filter(p);
+        if p(s.last()) {
+            assert(f == df.push(s.last()));
+            assert forall|i: int, j: int| 0 <= i < f.len() && 0 <= j < f.len() && i != j implies f[i] != f[j] by {
+                if i == f.len() - 1 || j == f.len() - 1 {
+                    let o = if i == f.len() - 1 { j } else { i };
+                    assert(df.contains(df[o]));
+                    assert(d.contains(df[o]));
+                    let k = choose|k: int| 0 <= k < d.len() && d[k] == df[o];
+                    assert(s[k] == df[o] && s[s.len() - 1] == s.last());
+                }
+            }
+        }
+    }
+}
+/// removal at index level (index_removed) carries the set-level invariant from V to V - {t}
+proof fn lemma_removed(old_idx: Map<Term, Vec<Arc<Triple>>>, new_idx: Map<Term, Vec<Arc<Triple>>>, t: Triple, c: Comp, v: Set<Triple>)
+    requires agree(old_idx, c, v), index_nodup(old_idx), index_removed(old_idx, new_idx, t),
+    ensures agree(new_idx, c, v.remove(t)), index_nodup(new_idx),
+{
+    assert forall|x: Arc<Triple>| bucket(new_idx, comp(*x, c)).contains(x) <==> v.remove(t).contains(*x) by {
+        let k = comp(tri(x), c);
+        assert(bucket(new_idx, k) == bucket(old_idx, k).filter(differs(t)));
+        lemma_filter_mem(bucket(old_idx, k), differs(t));
+        assert(bucket(old_idx, k).contains(x) <==> v.contains(*x));
+    }
+    assert forall|k: Term| #[trigger] new_idx.contains_key(k) implies new_idx[k]@.no_duplicates() by {
+        assert(bucket(new_idx, k) == bucket(old_idx, k).filter(differs(t)));
+        if old_idx.contains_key(k) { assert(old_idx[k]@.no_duplicates()); }
+        lemma_filter_nodup(bucket(old_idx, k), differs(t));
+    }
+}
+/// the update shape of entry(k).or_default().push(a) carries the invariant from V to V + {a}, provided a was not in V
+proof fn lemma_inserted(old_idx: Map<Term, Vec<Arc<Triple>>>, new_idx: Map<Term, Vec<Arc<Triple>>>, a: Arc<Triple>, c: Comp, v: Set<Triple>)
+    requires index_ok(old_idx, c, v), !v.contains(*a),
+        new_idx.contains_key(comp(*a, c)), new_idx[comp(*a, c)]@ == bucket(old_idx, comp(*a, c)).push(a),
+        forall|o: Term| #![trigger new_idx.contains_key(o)] #![trigger old_idx.contains_key(o)] #![trigger new_idx[o]] #![trigger old_idx[o]]
+            o != comp(*a, c) ==> (new_idx.contains_key(o) == old_idx.contains_key(o)) && (old_idx.contains_key(o) ==> new_idx[o] == old_idx[o]),
+    ensures index_ok(new_idx, c, v.insert(*a)),
+{
+    let k = comp(tri(a), c);
+    let b = bucket(old_idx, k);
+    let nb = b.push(a);
+    assert(bucket(new_idx, k) == nb);
+    assert(!b.contains(a));
+    assert forall|k2: Term| #[trigger] new_idx.contains_key(k2) implies new_idx[k2]@.len() > 0 && new_idx[k2]@.no_duplicates()
+        && forall|i: int| 0 <= i < new_idx[k2]@.len() ==> comp(*#[trigger] new_idx[k2]@[i], c) == k2 by {
+        if k2 == k {
+            assert forall|i: int| 0 <= i < nb.len() implies comp(*#[trigger] nb[i], c) == k by {
+                if i < b.len() { assert(old_idx.contains_key(k)); assert(nb[i] == old_idx[k]@[i]); }
+            }
+            assert forall|i: int, j: int| 0 <= i < nb.len() && 0 <= j < nb.len() && i != j implies nb[i] != nb[j] by {
+                if old_idx.contains_key(k) { assert(old_idx[k]@.no_duplicates()); }
+                if i == b.len() { assert(b.contains(b[j])); } else if j == b.len() { assert(b.contains(b[i])); } else { assert(b[i] != b[j]); }
+            }
+        } else {
+            assert(old_idx.contains_key(k2) && new_idx[k2] == old_idx[k2]);
+        }
+    }
+    assert forall|x: Arc<Triple>| bucket(new_idx, comp(*x, c)).contains(x) <==> v.insert(*a).contains(*x) by {
+        let kx = comp(tri(x), c);
+        if kx == k {
+            if nb.contains(x) { let i = choose|i: int| 0 <= i < nb.len() && nb[i] == x; if i < b.len() { assert(b[i] == x); assert(b.contains(x)); } }
+            if b.contains(x) { let i = choose|i: int| 0 <= i < b.len() && b[i] == x; assert(nb[i] == x); }
+            if x == a { assert(nb[b.len() as int] == x); }
+            assert(b.contains(x) <==> v.contains(*x));
+        } else {
+            assert(bucket(new_idx, kx) == bucket(old_idx, kx));
+            assert(bucket(old_idx, kx).contains(x) <==> v.contains(*x));
+        }
+    }
+}
+
 impl RdfStore {
+    /// Representation invariant of the store: the object index exists iff configured, and every index is well-formed, duplicate-free
+    /// and agrees with the primary set.
+    pub open spec fn store_wf(&self) -> bool {
+        index_ok(self.subject_index@, Comp::S, self.triples.view())
+        && index_ok(self.predicate_index@, Comp::P, self.triples.view())
+        && (self.config.index_objects == (self.object_index is Some))
+        && (self.object_index is Some ==> index_ok(self.object_index->0@, Comp::O, self.triples.view()))
+    }
+
+    @@RdfStore::insert@@
+
     @@RdfStore::remove@@
+
+    @@RdfStore::contains@@
+
+    @@RdfStore::find@@
 }
 
 } // verus!
@@ -197,6 +361,9 @@ def build(repo):
     u.item(TRI, 'struct', 'Triple').D1(keep_derive={'PartialEq', 'Eq'}).V1()
     for n in ('subject', 'predicate', 'object'):
         u.method(TRI, 'Triple', n).D1().ret('r').ensures('field', '*r == self.%s' % n)
+    u.item(TRI, 'struct', 'TriplePattern').D1(keep_derive=set())
+    f = u.method(TRI, 'TriplePattern', 'matches').D1().R6().ret('r')
+    f.ensures('spec', 'r == pattern_matches(*self, *triple)')
     u.item(SRC, 'struct', 'RdfStoreConfig').D1(keep_derive=set())
     st = u.item(SRC, 'struct', 'RdfStore').D1(keep_derive=set()).V1()
     st.sub('E3', 'triples: RwLock<FxHashSet<Arc<Triple>>>,', 'triples: OpaqueTripleSet,')
@@ -204,8 +371,14 @@ def build(repo):
     st.sub('E3', 'object_index: RwLock<Option<hashbrown::HashMap<Term, Vec<Arc<Triple>>, ahash::RandomState>>>,', 'object_index: Option<HashMap<Term, Vec<Arc<Triple>>>>,')
     st.sub('E3', 'tx_buffer: RwLock<TransactionBuffer>,', 'tx_buffer: OpaqueTxBuffer,')
     for w, why in [('external_body Term', 'E1: Term is opaque; only its structural equality / hashing is used'), ('external_body Term::hash', 'E1'),
-                   ('assume_specification Term::eq', 'derived PartialEq of Term is structural'), ('external_body OpaqueTripleSet', 'E1: primary FxHashSet<Arc<Triple>> (no vstd key model for Arc<T>: Borrow<T>)'),
-                   ('external_body OpaqueTxBuffer', 'E1: not touched'), ('external_body primary_remove', 'E3/E1: `self.triples.write().remove(triple)`; only its boolean result matters here'),
+                   ('assume_specification Term::eq', 'derived PartialEq of Term is structural'), ('external_body OpaqueTripleSet', 'E1: primary FxHashSet<Arc<Triple>> (no vstd key model for Arc<T>: Borrow<T>); carries the uninterpreted abstract view Set<Triple>'),
+                   ('external_body OpaqueTxBuffer', 'E1: not touched'), ('external_body primary_remove', 'E3/E1: `self.triples.write().remove(triple)`: ASSUMED std HashSet::remove over the abstract view'),
+                   ('external_body primary_contains', 'E3/E1: `self.triples.read().contains(..)`: ASSUMED std HashSet::contains over the abstract view'),
+                   ('external_body primary_insert', 'E3/E1: `self.triples.write().insert(..)`: ASSUMED std HashSet::insert over the abstract view'),
+                   ('external_body primary_elems', 'E3/E1: `self.triples.read().iter()`: ASSUMED - a hash set enumerates each of its elements exactly once'),
+                   ('external_body entry_or_default_push', 'R20: std HashMap::entry(k).or_default().push(v) appends v to the bucket of k (created if absent), other keys untouched'),
+                   ('external_body Term::clone', 'E1: derived Clone of Term is structural'),
+
                    ('assume_specification Triple::eq', 'derived PartialEq of Triple is structural'), ('assume_specification HashMap::get_mut', 'std semantics (as in unit TM)'),
                    ('assume_specification Vec::retain', 'std: retain keeps, in order, exactly the elements the predicate accepts'), ('admit axiom_term_keys', 'derived Hash/Eq of Term are lawful')]:
         u.trust(w, why)
@@ -223,8 +396,10 @@ def build(repo):
     f.resub_opt('X1', r'\bt\.as_ref\(\)', '(&**t)')   # Arc::as_ref == Arc::deref on the closure parameter (other closure bodies are taken verbatim)
     COMP = ['subject', 'predicate', 'object']
     f.R10('retain', '&Arc<Triple>', lambda i: 'requires (**t).%s == triple.%s, ensures /*@rdfstore::RdfStore::remove::closure#retain_%s_bucket_keeps_exactly_the_other_triples*/ r == (**t != *triple),' % (COMP[i], COMP[i], COMP[i]))
-    f.requires('wf', 'index_wf(old(self).subject_index@, Comp::S) && index_wf(old(self).predicate_index@, Comp::P)'
-               ' && (old(self).object_index is Some ==> index_wf(old(self).object_index->0@, Comp::O))')
+    f.requires('wf', 'old(self).store_wf()')
+    f.ensures('result', 'removed_r == old(self).triples.view().contains(*triple)')
+    f.ensures('set_semantics', 'final(self).triples.view() =~= old(self).triples.view().remove(*triple)')
+    f.ensures('store_invariant', 'final(self).store_wf()')
     f.ensures('subject_index', 'removed_r ==> index_removed(old(self).subject_index@, final(self).subject_index@, *triple)')
     f.ensures('predicate_index', 'removed_r ==> index_removed(old(self).predicate_index@, final(self).predicate_index@, *triple)')
     f.ensures('object_index', 'removed_r && old(self).config.index_objects && old(self).object_index is Some ==> final(self).object_index is Some'
@@ -267,8 +442,55 @@ def build(repo):
         if !O0.contains_key(k) { lemma_filter_all(Seq::<Arc<Triple>>::empty(), pred); }
         lemma_bucket_update(O0, self.object_index->0@, *triple, Comp::O);
     }
+    let V0 = old(self).triples.view();
+    lemma_removed(S0, self.subject_index@, *triple, Comp::S, V0);
+    lemma_removed(P0, self.predicate_index@, *triple, Comp::P, V0);
+    if self.object_index is Some { lemma_removed(O0, self.object_index->0@, *triple, Comp::O, V0); }
 }''')
-    u.not_covered += ['RdfStore::{insert (entry API), find / triples_with_* (adapter chains), clear, transaction buffer}', 'primary set vs index agreement (the primary FxHashSet<Arc<Triple>> is opaque)',
+
+    # ---- insert ----
+    f = u.method(SRC, 'RdfStore', 'insert').D1().ret('r')
+    f.sub('E3', 'pub fn insert(&self,', 'pub fn insert(&mut self,')
+    f.resub_opt('E3', r'[ \t]*let (?:mut )?(triples|subject_index|predicate_index|object_index) = self\.\1\.(?:read|write)\(\);\n', '')
+    f.resub_opt('E3', r'\btriples\.contains\(&triple\)', 'primary_contains(&self.triples, &triple)')
+    f.resub_opt('E3', r'\btriples\.insert\(Arc::clone\(&triple\)\)', 'primary_insert(&mut self.triples, Arc::clone(&triple))')
+    f.resub('E3', r'(?<![\.\w])(subject_index|predicate_index)\b(?=\s*\.entry)', r'self.\1')
+    f.sub('E3', '= *object_index', '= self.object_index')
+    f.R20()
+    f.requires('wf', 'old(self).store_wf()')
+    f.ensures('result', 'r == !old(self).triples.view().contains(triple)')
+    f.ensures('set_semantics', 'final(self).triples.view() =~= old(self).triples.view().insert(triple)')
+    f.ensures('store_invariant', 'final(self).store_wf()')
+    f.body_start('proof { axiom_term_keys(); }\nlet ghost S0 = old(self).subject_index@; let ghost P0 = old(self).predicate_index@; let ghost V0 = old(self).triples.view();\n'
+                 'let ghost O0 = if old(self).object_index is Some { old(self).object_index->0@ } else { Map::empty() };')
+    f.before_tail('''proof {
+    lemma_inserted(S0, self.subject_index@, triple, Comp::S, V0);
+    lemma_inserted(P0, self.predicate_index@, triple, Comp::P, V0);
+    if self.object_index is Some { lemma_inserted(O0, self.object_index->0@, triple, Comp::O, V0); }
+}''')
+
+    # ---- contains ----
+    f = u.method(SRC, 'RdfStore', 'contains').D1().ret('r')
+    f.sub('E3', 'self.triples.read().contains(triple)', 'primary_contains(&self.triples, triple)')
+    f.ensures('set_semantics', 'r == self.triples.view().contains(*triple)')
+
+    # ---- find ----
+    f = u.method(SRC, 'RdfStore', 'find').D1().ret('r')
+    f.resub('E3', r'let index = self\.(subject_index|predicate_index|object_index)\.read\(\);', r'let index = &self.\1;', count=3)
+    f.resub('E3', r'self\.triples\s*\.read\(\)', 'primary_elems(&self.triples)')
+    f.R21('Arc<Triple>')
+    f.requires('wf', 'self.store_wf()')
+    f.ensures('exactly_the_matching_triples', 'forall|x: Arc<Triple>| #[trigger] r@.contains(x) <==> self.triples.view().contains(*x) && pattern_matches(*pattern, *x)')
+    f.ensures('once_each', 'r@.no_duplicates()')
+    f.body_start('proof { axiom_term_keys(); }')
+    for i in range(4):
+        L = f.loop(i).kind('for').iter('it')
+        L.invariants(('filtered_prefix', 'out__@ == src__@.take(it.index@ as int).filter(pm(*pattern))'),
+                     ('iter', 'it.seq().len() == src__@.len() && forall|k: int| 0 <= k < it.seq().len() ==> *(#[trigger] it.seq()[k]) == src__@[k]'))
+        L.body_end('proof { let s = src__@.take(it.index@ + 1); assert(s.drop_last() =~= src__@.take(it.index@ as int)); assert(s.last() == *t); reveal_with_fuel(Seq::filter, 2); }')
+        L.after('proof { assert(src__@.take(src__@.len() as int) =~= src__@); lemma_filter_mem(src__@, pm(*pattern)); lemma_filter_nodup(src__@, pm(*pattern)); }')
+
+    u.not_covered += ['RdfStore::{with_config, triples_with_* (Option::cloned on Vec<Arc<_>>), subjects/predicates/objects, clear, stats, transaction buffer (commit_tx/rollback_tx)}', 'the primary FxHashSet<Arc<Triple>> itself (abstract view + assumed std contracts)',
                       'SPARQL parser / translator / planner_rdf / operators']
     u.assume('E3: locks dropped - one call is one critical section, sequentially')
     return u
